@@ -958,7 +958,8 @@ class SymPattern:
 class Engine:
     """Depth-first exploration of all feasible paths of `fn` by re-execution."""
 
-    def __init__(self, ctx=None, max_paths=20000, query_timeout_s=30, wall_budget_s=None):
+    def __init__(self, ctx=None, max_paths=20000, query_timeout_s=30, wall_budget_s=None, incremental=False):
+        self.incremental = incremental  # True: one push/pop solver per path (cheap formulas, many queries)
         self.ctx = ctx
         self.max_paths = max_paths
         self.qt = query_timeout_s
@@ -1017,15 +1018,33 @@ class Engine:
     def _check(self, extra):
         """is pc ∧ extra satisfiable?  A fresh QF_BV solver per query: bit-blasting + SAT is much
         faster here than the incremental SMT core."""
-        s = z3.SolverFor("QF_BV")
-        s.set("timeout", int(self.qt * 1000))
-        s.add(*self._solver_assertions)
-        s.add(*extra)
-        t0 = time.time()
-        r = str(s.check())
-        self.solver_calls += 1
-        self.solver_s += time.time() - t0
-        m = s.model() if r == "sat" else None
+        if self.incremental:
+            s = self._inc
+            if s is None:
+                s = self._inc = z3.Solver()
+                s.set("timeout", int(self.qt * 1000))
+                self._inc_n = 0
+            for c in self._solver_assertions[self._inc_n:]:
+                s.add(c)
+            self._inc_n = len(self._solver_assertions)
+            s.push()
+            s.add(*extra)
+            t0 = time.time()
+            r = str(s.check())
+            self.solver_calls += 1
+            self.solver_s += time.time() - t0
+            m = s.model() if r == "sat" else None
+            s.pop()
+        else:
+            s = z3.SolverFor("QF_BV")
+            s.set("timeout", int(self.qt * 1000))
+            s.add(*self._solver_assertions)
+            s.add(*extra)
+            t0 = time.time()
+            r = str(s.check())
+            self.solver_calls += 1
+            self.solver_s += time.time() - t0
+            m = s.model() if r == "sat" else None
         if r == "unknown":
             raise Inconclusive("solver returned unknown on a path-feasibility query")
         return r == "sat", m
@@ -1171,6 +1190,7 @@ class Engine:
                 self._pc = []
                 self.base = []
                 self._solver_assertions = []
+                self._inc = None
                 self._model = None
                 self._base_added = 0
                 self.paths += 1
